@@ -133,6 +133,7 @@ type case = {
   progs : out prog list;
   mutable seqs : (string * iobs) list;       (* sequential outcomes on the real tower: replies, state *)
   mutable seqreps : string list list list;   (* ... and the replies thread by thread *)
+  mutable seqsends : int list list;          (* ... and the transactions handed to the node (sorted, without repetitions) *)
   words : (string, unit) Hashtbl.t;
   mutable runs : int;
 }
@@ -197,7 +198,7 @@ let handle_ch (lineno : int) (r : reader) : unit =
                | Some t -> List.map (fun th -> prog_of_thread log_enabled script t (List.map (fun a -> a.op) th)) threads
                | None -> []) in
   let c = { name; cfg; h0; bound; c_slots_i = slots; pre = List.map fst pre_with; threads; script; script_i; st0; t0; progs;
-            seqs = []; seqreps = []; words = Hashtbl.create 256; runs = 0 } in
+            seqs = []; seqreps = []; seqsends = []; words = Hashtbl.create 256; runs = 0 } in
   incr cases;
   (match t0 with
    | None -> corr lineno c "pre-state" "model aborted" "ok" "-"
@@ -282,9 +283,20 @@ let diff_class (a : iobs) (b : iobs) : string list =
   @ cols "mem" 1 ["slots"; "expiry"] a.mem b.mem
 
 let uniq l = List.sort_uniq compare l
+let sends_of (rpcs : (int * int) list) : int list = uniq (List.concat (List.map (fun (k, t) -> if k = 1 then [t] else []) rpcs))
 
 let monitors (lineno : int) (c : case) (x : run) (roots : string list) : unit =
   let w = word_s x.word in
+  (* sends (C02): every transaction handed to the node in this run is the penalty of an appointment version the tower has taken on -
+     in the pre-state, or by a submission of this run that is ANSWERED with a receipt - or the dispute of one, re-announced after a reorg; a request answered as refused (e.g. because
+     its owner was removed meanwhile) has not put anything on the wire on the way *)
+  (let pens ops = List.concat (List.map (fun (a : aop) -> match a.op with OAdd (_, loc, { b_pay = Some t; _ }, _, _) -> [int_of_n t; int_of_n loc] | _ -> []) ops) in
+   let taken = pens c.pre @ List.concat (List.map2 (fun th rep -> match rep with ("AO" :: _) -> pens th | _ -> []) c.threads x.reps) in
+   let extra = List.filter (fun t -> not (List.mem t taken)) (sends_of x.rpcs) in
+   if extra <> [] then
+     mon lineno c "sends" "sent-for-a-submission-that-was-not-acknowledged"
+       (Printf.sprintf "replies=[%s],sent=[%s],penalties-and-disputes-of-acknowledged-submissions=[%s]" (reps_s x.reps)
+          (String.concat " " (List.map string_of_int (sends_of x.rpcs))) (String.concat " " (List.map string_of_int (uniq taken)))) w);
   let panicked = List.exists (function ("X" :: _) | ("XP" :: _) | ("K" :: _) -> true | _ -> false) x.reps in
   (* panic: nothing panicked, nothing poisoned, no deadlock *)
   if panicked || not x.alive || x.deadlock <> "-" then begin
@@ -424,6 +436,7 @@ let handle_cr (lineno : int) (r : reader) : unit =
         incr seq_runs;
         c.seqs <- c.seqs @ [(reps_s (List.map norm_rep x.reps), x.st)];
         c.seqreps <- c.seqreps @ [List.map norm_rep x.reps];
+        c.seqsends <- c.seqsends @ [sends_of x.rpcs];
         (* the sequential orders on the model *)
         (match c.t0 with
          | None -> ()
